@@ -265,9 +265,36 @@ func checkOneWriteOneRead(c *Ctx, r *Report) {
 		r.Fn(c.FnName(send))
 		ok := true
 		why := ""
+		failOK, failSeen := true, 0
 		enumPaths(send, 2, 4096, func(p CPath) {
 			if c.errOutcome(send, p) != 0 {
 				return
+			}
+			// a success path never follows the failure arm of a socket call's error test: a
+			// read that timed out is a transport failure, not an empty reply
+			for _, t := range p.Ifs() {
+				bo, isBin := t.If.Cond.(*ssa.BinOp)
+				if !isBin || (bo.Op != token.NEQ && bo.Op != token.EQL) {
+					continue
+				}
+				v := bo.X
+				if isNilConst(v) {
+					v = bo.Y
+				} else if !isNilConst(bo.Y) {
+					continue
+				}
+				ex, isEx := v.(*ssa.Extract)
+				if !isEx {
+					continue
+				}
+				call, isCall := ex.Tuple.(*ssa.Call)
+				if !isCall || !(isCallTo(call, sockReads...) || isCallTo(call, sockWrites...)) {
+					continue
+				}
+				failSeen++
+				if failed := t.Arm == (bo.Op == token.NEQ); failed {
+					failOK = false
+				}
 			}
 			w, rd := 0, 0
 			wAt, rAt := -1, -1
@@ -287,6 +314,9 @@ func checkOneWriteOneRead(c *Ctx, r *Report) {
 			}
 		})
 		r.Check(ok, c.FnName(send)+"|write-then-read", send.Pos(), "one write then one read", why)
+		if failSeen > 0 {
+			r.Check(failOK, c.FnName(send)+"|socket failure is an error", send.Pos(), "no success path follows the failure arm of a socket call's error test", "a path on which the socket write or read failed (a timeout, say) returns a nil error: the caller takes whatever the buffer holds — or nothing — for a reply, and a lost reply is no longer a transport failure")
+		}
 		// ... and Send is the only place that touches the socket: a read anywhere else (a drain,
 		// a peek) lands in the receive buffer the accepted reply's payload still points into, or
 		// swallows the reply the next command is waiting for; a write anywhere else is a datagram
